@@ -106,10 +106,15 @@ def viewBoxOf (s : List Char) : Option (List Rat) :=
 def colorAttrs : List (List Char) :=
   [['f', 'i', 'l', 'l'], ['s', 't', 'r', 'o', 'k', 'e'], ['c', 'o', 'l', 'o', 'r'], ['s', 't', 'o', 'p', '-', 'c', 'o', 'l', 'o', 'r'], ['f', 'l', 'o', 'o', 'd', '-', 'c', 'o', 'l', 'o', 'r'], ['l', 'i', 'g', 'h', 't', 'i', 'n', 'g', '-', 'c', 'o', 'l', 'o', 'r']]
 
-/-- attributes whose value is an identifier, a reference or a version string -/
+/-- attributes whose value is an identifier, a reference, a version string or text — never a length -/
 def isLiteralAttr (n : List Char) : Bool :=
-  n == ['i', 'd'] || n == ['c', 'l', 'a', 's', 's'] || n == ['h', 'r', 'e', 'f'] || n == ['f', 'o', 'n', 't', '-', 'f', 'a', 'm', 'i', 'l', 'y'] ||
-  n == ['v', 'e', 'r', 's', 'i', 'o', 'n'] || n.contains ':'
+  n == ['i', 'd'] || n == ['c', 'l', 'a', 's', 's'] || n == ['h', 'r', 'e', 'f'] ||
+  n == ['f', 'o', 'n', 't', '-', 'f', 'a', 'm', 'i', 'l', 'y'] || n == ['v', 'e', 'r', 's', 'i', 'o', 'n'] ||
+  n.contains ':' ||
+  n == ['u', 'n', 'i', 'c', 'o', 'd', 'e'] || n == ['g', 'l', 'y', 'p', 'h', '-', 'n', 'a', 'm', 'e'] ||
+  n == ['r', 'e', 's', 'u', 'l', 't'] || n == ['i', 'n'] || n == ['i', 'n', '2'] || n == ['n', 'a', 'm', 'e'] ||
+  n == ['s', 'y', 's', 't', 'e', 'm', 'L', 'a', 'n', 'g', 'u', 'a', 'g', 'e'] || n == ['l', 'a', 'n', 'g'] ||
+  n == ['t', 'i', 't', 'l', 'e'] || n.take 5 == ['d', 'a', 't', 'a', '-'] || n.take 5 == ['a', 'r', 'i', 'a', '-']
 
 /-- attributes whose value belongs to another property (C04/C11: style; C05 path half: d; C18: media types) -/
 def isOpaqueAttr (n : List Char) : Bool :=
